@@ -7,6 +7,7 @@ package zz_verif_sim
 
 import (
 	"encoding/base64"
+	"encoding/json"
 	"errors"
 	"fmt"
 	"io"
@@ -236,6 +237,7 @@ type Host struct {
 	spec    HostSpec
 	dr      *ysgo.DialogueRunner
 	st      variable.Storer
+	kept    []keptEl
 	rec     *recStorer
 	events  []string
 	invs    []*Inv
@@ -777,7 +779,31 @@ func (h *Host) NextEl(arg int) (r Resp, el *ysgo.DialogueElement) {
 	}()
 	var err error
 	el, err = h.dr.Next(arg)
+	if el != nil {
+		// what was handed to the host stays what it was (checked by whoever asks keptChanged later)
+		b, _ := json.Marshal(el)
+		h.kept = append(h.kept, keptEl{el, string(b)})
+		if len(h.kept) > 4 {
+			h.kept = h.kept[len(h.kept)-4:]
+		}
+	}
 	return toResp(el, err), el
+}
+
+type keptEl struct {
+	el    *ysgo.DialogueElement
+	canon string
+}
+
+// keptChanged reports the first element, among the last few this runner returned, whose content is no
+// longer what it was when it was returned.
+func (h *Host) keptChanged() string {
+	for _, k := range h.kept {
+		if b, _ := json.Marshal(k.el); string(b) != k.canon {
+			return fmt.Sprintf("returned %s, now %s", k.canon, b)
+		}
+	}
+	return ""
 }
 
 // StoreCanon is the host-visible content of the storer, canonicalised.
